@@ -6,7 +6,7 @@ package argmapper
 import (
 	"fmt"
 	"reflect"
-	"strings"
+	"strconv"
 	"sync"
 
 	"github.com/hashicorp/go-argmapper/internal/graph"
@@ -199,9 +199,13 @@ func (f *Func) redefineInputs(opts ...Arg) (reflect.Type, error) {
 			}
 			names[v.Name] = struct{}{}
 
+			// The name is carried by the tag and the field gets a generated
+			// name: a value name taken from a struct tag doesn't have to be
+			// a valid Go identifier (e.g. "my-value").
 			sf = append(sf, reflect.StructField{
-				Name: strings.ToUpper(v.Name),
+				Name: fmt.Sprintf("V__Named_%d", len(sf)),
 				Type: v.Type,
+				Tag:  reflect.StructTag("argmapper:" + strconv.Quote(v.Name)),
 			})
 
 		case *typedArgVertex:
